@@ -178,6 +178,19 @@ pub fn build_room_mutation(
     groups: &BTreeMap<(u64, u64), Uid>,
     key: &mut dyn FnMut(u64) -> Vec<u8>,
 ) -> Option<RoomMutation> {
+    build_room_mutation_with(kv, rooms, groups, key, &|_| None)
+}
+
+/// `g<g>.id=<x>` gives the id of the `sys.Authorisation` entity of slot `g` explicitly: `<r2>.<g2>` the group `g2`
+/// of room `r2` (any room), or whatever `other` resolves (`h<handle>`: a data row, `a<r2>.<i>`: an admin entry) —
+/// the ids of rows that are NOT groups of the mutated room
+pub fn build_room_mutation_with(
+    kv: &Kv,
+    rooms: &HashMap<u64, Uid>,
+    groups: &BTreeMap<(u64, u64), Uid>,
+    key: &mut dyn FnMut(u64) -> Vec<u8>,
+    other: &dyn Fn(&str) -> Option<Uid>,
+) -> Option<RoomMutation> {
     let r = get_u(kv, "r")?;
     let is_new = kv.get("new").map(|v| v == "1").unwrap_or(false);
     let mut p: Vec<(String, String)> = vec![];
@@ -218,7 +231,20 @@ pub fn build_room_mutation(
             }
             mentioned.push(g);
             q.push('{');
-            match groups.get(&(r, g)) {
+            let explicit: Option<Uid> = match kv.get(&format!("g{}.id", g)) {
+                None => None,
+                Some(x) => {
+                    let id = match x.split_once('.') {
+                        Some((r2, g2)) if !x.starts_with('a') => {
+                            let key = (r2.parse::<u64>().ok()?, g2.parse::<u64>().ok()?);
+                            groups.get(&key).copied()
+                        }
+                        _ => other(x),
+                    };
+                    Some(id?)
+                }
+            };
+            match explicit.as_ref().or(groups.get(&(r, g))) {
                 Some(id) => {
                     let name = format!("g{}", g);
                     p.push((name.clone(), base64_encode(id)));
